@@ -36,7 +36,7 @@ type cmdFile struct {
 
 var cmdMenu = []cmdFile{
 	{Name: "ok1.json", Content: `[{"op":"add","path":"/k","value":[1]}]`},
-	{Name: "ok2.json", Content: `[{"op":"add","path":"/k","value":{"n":1.0}},{"op":"add","path":"/z","value":"<"}]`},
+	{Name: "ok2.json", Content: `[{"op":"add","path":"/k","value":{"n":1.0}},{"op":"add","path":"/z","value":"<%s %d 100%"}]`},
 	{Name: "after1.json", Content: `[{"op":"test","path":"/k/0","value":1},{"op":"add","path":"/k/-","value":2}]`},
 	{Name: "move.json", Content: `[{"op":"move","from":"/a","path":"/m"}]`},
 	{Name: "failtest.json", Content: `[{"op":"add","path":"/q","value":1},{"op":"test","path":"/q","value":2}]`},
@@ -51,6 +51,7 @@ var cmdMenu = []cmdFile{
 
 var cmdStdin = []string{
 	`{"a":1,"b":{"c":"s"}}`,
+	`{"a":"50%","%v":["%!s(MISSING)","\\n%%"]}`,
 	" {\n  \"a\" : [ 1 , 2 ] ,\n  \"k\" : [ 1 ]\n }\n",
 	`[{"a":1},2]`,
 	`{"a":`,
